@@ -1,6 +1,6 @@
 (** C08 correspondence entries. *)
 From Coq Require Import String.
-From BV Require Import Base.Prelude Base.Codec Glob.Ast Glob.Parse Glob.Regex Glob.Translate Glob.Sem Glob.Known Glob.Expand.
+From BV Require Import Base.Prelude Base.Codec Glob.Ast Glob.Parse Glob.Regex Glob.Translate Glob.Sem Glob.Known Glob.Expand Glob.Budget.
 
 Definition has_opt (o : str) (c : N) : bool := mem c o.
 
@@ -15,26 +15,34 @@ Definition all_strs (alpha : str) (n : nat) : list str := [] :: enum_strs alpha 
 
 Definition bit (b : bool) : char := if b then 49%N else 48%N.
 
-(** model of Pattern::exactly_matches on many subjects, the regex being built once *)
-Definition model_bits (ext ci : bool) (ps : list piece) (ss : list str) : str :=
+(** model of Pattern::exactly_matches on many subjects, the regex being built once.
+    [budget = false]: the proven matcher [search]; [budget = true]: the step-budgeted [search_f]
+    ('F' = budget exhausted, inconclusive). *)
+Definition model_bits_with (budget : bool) (ext ci : bool) (ps : list piece) (ss : list str) : str :=
   let r := pattern_regex ext ps in
   match re_status r with
   | SErr => map (fun _ => 69%N) ss
   | SUnm => map (fun _ => 85%N) ss
-  | SOk => map (fun s => bit (search eff_multi eff_dotall ci r s)) ss
+  | SOk =>
+      if budget then
+        map (fun s => match search_f eff_multi eff_dotall ci r s engine_budget with
+                      | Some b => bit b | None => 70%N end) ss
+      else map (fun s => bit (search eff_multi eff_dotall ci r s)) ss
   end.
+Definition model_bits := model_bits_with true.
 
 Definition spec_pat (ext : bool) (ps : list piece) : gpat :=
   fold_right (fun p g => match p with PPat s => gapp (spec_parse ext s) g | PLit s => gapp (lits s) g end) GNil ps.
 
+(** 'F' where the cut enumeration of the specification is not affordable *)
 Definition spec_bits (ext ci : bool) (ps : list piece) (ss : list str) : str :=
-  let g := spec_pat ext ps in map (fun s => bit (glob_match ci g s)) ss.
+  let g := spec_pat ext ps in
+  map (fun s => if spec_affordable g s then bit (glob_match ci g s) else 70%N) ss.
 
-(** what the spec would say if ^/$ also matched at line breaks (class KF-C08-multiline-anchors);
-    only computed for subjects containing a line feed *)
 Definition spec_ml_bits (ext ci : bool) (ps : list piece) (ss : list str) : str :=
   let g := spec_pat ext ps in
-  map (fun s => if mem 10%N s then bit (spec_multiline ci g s) else bit (glob_match ci g s)) ss.
+  map (fun s => if negb (spec_affordable g s) then 70%N
+                else if mem 10%N s then bit (spec_multiline ci g s) else bit (glob_match ci g s)) ss.
 
 Definition class_flags (ext : bool) (p : str) : str :=
   [bit (k_negation ext p); bit (k_lead_rbracket ext p); bit (k_esc_alnum ext p);
@@ -61,7 +69,10 @@ Definition entry_glob_m (a : list str) : list str :=
       let ext := has_opt o 101 in
       let ci := has_opt o 105 in
       let ss := all_strs al (dec_nat n) in
-      [model_bits ext ci [PPat p] ss; spec_bits ext ci [PPat p] ss; spec_ml_bits ext ci [PPat p] ss; class_flags ext p]
+      let mb := model_bits_with true ext ci [PPat p] ss in
+      let mp := model_bits_with false ext ci [PPat p] ss in
+      [mp; spec_bits ext ci [PPat p] ss; spec_ml_bits ext ci [PPat p] ss; class_flags ext p;
+       [bit (forallb (fun xy => N.eqb (fst xy) (snd xy) || N.eqb (fst xy) 70) (combine mb mp) && Nat.eqb (length mb) (length mp))]]
   | _ => []
   end.
 
